@@ -104,6 +104,15 @@ def check(chk):
     ok = bool(rs) and bool(ds) and cfg.guards_at(rs[0][0].id).get("self.config['reset_on_complete']") is True and \
         cfg.guards_at(ds[0][0].id).get("self.config['disable_on_complete']") is True
     chk.ob("DOM-34", "reset / disable after completion follow their config flags", ok, f.where(), construct=f.ident, text="post-completion flags")
+    # ... each its own flag and nothing else: with both set (the default) the block is reset *and* disabled
+    from sa.cfg import canon_set as _cs4, canon_fact as _cf4
+    from sa.helpers import positive as _pos4
+    base_g = _pos4(set(_cs4(cfg.guards_at(mark[0].id))))
+    for nodes_, flag in ((rs, "self.config['reset_on_complete']"), (ds, "self.config['disable_on_complete']")):
+        for n, c in nodes_:
+            got = _pos4(set(_cs4(cfg.guards_at(n.id)))) - base_g
+            chk.ob("DOM-34", "after completion `%s` runs exactly when %s is set (independent of the other flag)" % (src(c), flag), got == _pos4({_cf4(flag, True)}),
+                   f.where(c), detail="runs under %s" % sorted(got), construct=f.ident, text="post-completion selection of " + src(c))
     ok = ok and not any(cfg.path_avoiding(x.id, [p.id], []) for p in posts for x in (rs[0][0], ds[0][0])) and \
         not cfg.path_avoiding(ds[0][0].id, [rs[0][0].id], [])
     chk.ob("DOM-34", "order: events, then reset, then disable (a disabled block keeps no running timeout)", ok, f.where(), construct=f.ident,
@@ -345,6 +354,7 @@ def battery():
         M("sequence advances while disabled", LB, "        del kwargs\n        if not self.enabled:\n            return\n\n        if step is not None and step != self.value:", "        del kwargs\n        if step is not None and step != self.value:", "DOM-33"),
         M("completes twice", LB, "        # if already completed do not complete again\n        if self.completed:\n            return\n", "", "DOM-34"),
         M("timeout survives completion", LB, "        self.completed = True\n        self.delay.remove(\"timeout\")", "        self.completed = True", "DOM-34"),
+        M("reset after completion only when the block is not disabled", LB, "        # disable block\n        if self.config['disable_on_complete']:\n            self.disable()", "        # disable block\n        if self.config['disable_on_complete'] and not self.config['reset_on_complete']:\n            self.disable()", "DOM-34"),
         M("disable before reset", LB, "        # call reset to reset completion\n        if self.config['reset_on_complete']:\n            self.reset()\n\n        # disable block\n        if self.config['disable_on_complete']:\n            self.disable()", "        # disable block\n        if self.config['disable_on_complete']:\n            self.disable()\n\n        # call reset to reset completion\n        if self.config['reset_on_complete']:\n            self.reset()", "DOM-34"),
         M("accrual completes one early", LB, "        if self.value.count(True) == len(self.value):", "        if self.value.count(True) >= len(self.value) - 1:", "DOM-34"),
         M("explicit start_enabled: no treated like a missing one", LB, "        if self.config['start_enabled'] is not None:\n            self._start_enabled = self.config['start_enabled']\n        else:\n            self._start_enabled = not self.config['enable_events']", "        self._start_enabled = self.config['start_enabled'] or not self.config['enable_events']", "START-18"),
